@@ -109,9 +109,17 @@ func singularMessageOccursTwice(md protoreflect.MessageDescriptor, b []byte) boo
 			if vm := fd.MapValue().Message(); vm != nil {
 				es, err := refwire.Walk(b[f.PayloadStart:f.End])
 				if err == nil {
+					values := 0
 					for _, e := range es {
-						if e.Num == 2 && e.WT == refwire.WTLen && singularMessageOccursTwice(vm, b[f.PayloadStart:f.End][e.PayloadStart:e.End]) {
-							return true
+						if e.Num == 2 && e.WT == refwire.WTLen {
+							// the value of a map entry is a singular message field of the (synthetic) entry message: a
+							// second occurrence inside ONE entry is the same split
+							if values++; values > 1 {
+								return true
+							}
+							if singularMessageOccursTwice(vm, b[f.PayloadStart:f.End][e.PayloadStart:e.End]) {
+								return true
+							}
 						}
 					}
 				}
